@@ -75,6 +75,7 @@ import (
 	"github.com/sassoftware/relic/v8/token/tokencache"
 
 	"verifharness/c15"
+	"verifharness/c20"
 	"verifharness/hx"
 )
 
@@ -385,8 +386,13 @@ func Gen(w *bufio.Writer, seed uint64, tier string) {
 		for _, n := range []int{8, 32} {
 			emit("shut", caches[r.Intn(3)], strconv.Itoa(r.Intn(12000)), mix(n, true))
 		}
-		for _, e := range []int{0, 1} {
-			fmt.Fprintf(w, "C14 cachecancel %d %d\n", e, []int{1, 4}[e])
+		if k%5 == 0 {
+			for _, e := range []int{0, 1} {
+				fmt.Fprintf(w, "C14 cachecancel %d %d\n", e, []int{1, 4}[e])
+			}
+		}
+		if k == 0 {
+			fmt.Fprintln(w, "C14 healthbusy - 0")
 		}
 	}
 }
@@ -1021,6 +1027,10 @@ func Impl() {
 	hx.EachLine(func(f []string) string {
 		if len(f) < 3 {
 			return "bad-op"
+		}
+		if f[0] == "healthbusy" {
+			// a health request overlapping a hanging token ping is answered from the last known state (shared with C20's busy op)
+			return c20.Handle([]string{"busy"})
 		}
 		if f[0] == "cachecancel" {
 			// one request's cancellation inside the shared key cache must not reach another request (shared with C15)
